@@ -165,7 +165,9 @@ def c04_flags(ctx):
         fn = F(ctx, q)
         gg = cfg_of(fn)
         hs = [h for t in nodes_of_type(fn, ast.Try) for h in t.handlers]
-        ctx.need(hs, "no handler in %s" % q)
+        if not hs:
+            ctx.bad(fn, "%s has no exception handler around result retrieval: a worker failure escapes in the callback thread and the call never learns about it" % q, key="%s::%s::handler" % (PAR, q))
+            continue
         hb = [h for h in hs if handler_catches(h, ["BaseException"]) and (h.type is None or "BaseException" in unparse(h.type))]
         ctx.check(bool(hb), hs[0], "%s catches BaseException around result retrieval" % q,
                   "%s no longer catches BaseException: a worker failure escapes in the callback thread and is lost" % q)
@@ -187,7 +189,9 @@ def c04_flags(ctx):
 def c04_same_exc(ctx):
     f = F(ctx, "BatchCompletionCallBack._return_or_raise")
     raises = nodes_of_type(f, ast.Raise)
-    ctx.need(raises, "no raise in _return_or_raise")
+    if not raises:
+        ctx.bad(f, "_return_or_raise never raises: a failed task's exception object is returned as if it were a result", key=PAR + "::BatchCompletionCallBack._return_or_raise::raise")
+        return
     g = cfg_of(f)
     for r in raises:
         ctx.check(r.exc is not None and dotted(r.exc) == "self._result" and r.cause is None, r,
@@ -203,7 +207,8 @@ def c04_same_exc(ctx):
     f2 = F(ctx, "_retrieve_traceback_capturing_wrapped_call", UT)
     p = f2.args.args[0].arg
     rs = nodes_of_type(f2, ast.Raise)
-    ctx.need(rs, "no raise in _retrieve_traceback_capturing_wrapped_call")
+    if not rs:
+        ctx.bad(f2, "_retrieve_traceback_capturing_wrapped_call never raises: a worker exception is handed to the caller as a value", key=UT + "::_retrieve_traceback_capturing_wrapped_call::raise")
     for r in rs:
         ctx.check(dotted(r.exc) == p and r.cause is None, r, "re-raises the rebuilt worker exception itself")
     ctx.check(any(dotted(r.value) == p for r in nodes_of_type(f2, ast.Return) if r.value is not None), f2,
@@ -416,7 +421,9 @@ def c04_cleanup(ctx):
     g = cfg_of(ab)
     st = [s for s in assigns_to(ab, "self._aborting") if is_const(s.value, True)]
     calls = [c for c in calls_in(ab) if call_attr(c) == "abort_everything"]
-    ctx.need(calls, "_abort no longer calls abort_everything")
+    if not calls:
+        ctx.bad(ab, "_abort no longer asks the backend to abort: running tasks of a failed/closed call keep the workers busy", key=PAR + "::Parallel._abort::abort_everything")
+        return
     ctx.check(bool(st) and g.every_path_to(g.nodes_of_all(calls), g.nodes_of_all(st)), st[0] if st else ab,
               "_abort sets _aborting = True before calling backend.abort_everything",
               "_abort does not set _aborting before aborting the backend: callbacks keep dispatching")
@@ -437,7 +444,8 @@ def c04_cleanup(ctx):
     tr2 = F(ctx, "Parallel._terminate_and_reset")
     g2 = cfg_of(tr2)
     term = [c for c in calls_in(tr2) if call_name(c) == "self._backend.terminate"]
-    ctx.need(term, "_terminate_and_reset no longer calls backend.terminate")
+    if not term:
+        ctx.bad(tr2, "_terminate_and_reset no longer terminates an unmanaged backend: workers and temporary resources of the call are never released", key=PAR + "::Parallel._terminate_and_reset::terminate")
     for c in term:
         conds = g2.conditions_at(g2.nodes_of(c))
         ok = any(unparse(t) == "not self._managed_backend" and pol or unparse(t) == "self._managed_backend" and not pol for (_, t, pol) in conds)
@@ -456,7 +464,9 @@ def c04_cleanup(ctx):
             kv = kwarg(t_[0], "kill_workers")
             ctx.check(kv is not None and is_const(kv, True), t_[0], "loky workers are killed on abort (kill_workers=True)")
         cf = list(calls_in(fn, "self.configure"))
-        ctx.need(cf, "%s no longer reconfigures" % q)
+        if not cf:
+            ctx.bad(fn, "%s no longer re-configures the backend when ensure_ready: after an aborted call inside a `with Parallel(...)` block the backend has no workers" % q, key="%s::%s::reconfigure" % (BK, q))
+            continue
         for c in cf:
             conds = gg.conditions_at(gg.nodes_of(c))
             ctx.check(len(conds) == 1 and unparse(conds[0][1]) == "ensure_ready" and conds[0][2], c,
